@@ -2,6 +2,6 @@
 # Runs every registered check (quick by default) against /repo and rewrites /verif/evidence/*.json
 TIER=${1:-quick}
 cd /verif
-for id in C02 C05 C06 C08 C09 C10 C15 C16 C17 C18 C19 C20; do
+for id in C02 C05 C06 C08 C09 C10 C12 C15 C16 C17 C18 C19 C20; do
   python3-vt -m a5verif check $id --tier $TIER 2>&1 | grep -E "RESULT|VIOLATION|UNDECIDED|CHECKER|KNOWN" | cut -c1-200
 done
